@@ -3,10 +3,15 @@
   PROPERTY THEOREMS about the model `Orb.Clip` (clip/clip.go `line`, `bitCode`, `bitCodeOpen`,
   `intersect`, `push`; clip/helpers.go LineString / MultiLineString).
 
+  The clauses "pieces appear in travel order" and "total length equals the length inside" are proved
+  in OrbProofs/C07Order.lean (`clip_order`, `clip_segments`, `clip_length`, `clip_length_sem`), which
+  is audited together with this file.
+
   Coordinates range over an arbitrary ordered field (exact arithmetic; floating-point rounding is
   not modelled).  `BoxOK` = positive width and height.
 -/
 import OrbProofs.C07Lemmas
+import OrbProofs.C07Mls
 import Mathlib.Algebra.Order.Field.Rat
 import Mathlib.Tactic.NormNum
 
@@ -75,14 +80,61 @@ theorem clip_open_complete (box : Bound α) (hb : BoxOK box) (inp : List (Pt α)
 theorem clip_open_touch_witness :
     line (⟨⟨1, 1⟩, ⟨2, 3⟩⟩ : Bound ℚ) true [⟨0, 0⟩, ⟨4, 2⟩] = some [[⟨2, 1⟩, ⟨2, 1⟩]] := clip_open_touch_witness'
 
-/-- "pieces appear in travel order" and "total length equals the length inside" follow from exactness
-    plus the order in which pieces are emitted; stated in full, not yet proved. -/
-def clip_order_full : Prop :=
-  ∀ (box : Bound α) (inp : List (Pt α)) (out : List (List (Pt α))), BoxOK box → line box false inp = some out →
-    ∃ idx : List (List (Nat × α)), idx.length = out.length ∧
-      -- every output vertex is `lerp in[i] in[i+1] t` for its (i, t), and (i, t) is non-decreasing
-      -- lexicographically along each piece and from one piece to the next
-      (idx.flatten.Pairwise fun a b => a.1 < b.1 ∨ (a.1 = b.1 ∧ a.2 ≤ b.2))
+/-- A line wholly inside is returned as it is ONLY from two vertices on: a one-vertex line string has no
+    segment, the loop body never runs and nothing is returned (`clip.LineString` gives nil) — in both
+    modes, for every box, also when the vertex lies inside the box.  Likewise for no vertex at all. -/
+theorem clip_one_vertex (box : Bound α) (isOpen : Bool) (p : Pt α) : line box isOpen [p] = some [] :=
+  clip_one_vertex' box isOpen p
+
+theorem clip_no_vertex (box : Bound α) (isOpen : Bool) : line box isOpen [] = some [] :=
+  clip_no_vertex' box isOpen
+
+/-! ### the second entry point, `clip.MultiLineString` -/
+
+/-- CONCATENATION (no hypothesis on the box, both modes): `multiLineString` returns `out` iff every
+    member is clipped by `line` with the same option and `out` is the concatenation of the member
+    results in member order. -/
+theorem mls_concat_iff (box : Bound α) (isOpen : Bool) (mls : List (List (Pt α))) (out : List (List (Pt α))) :
+    multiLineString box isOpen mls = some out ↔
+      ∃ outs, List.Forall₂ (fun ls o => line box isOpen ls = some o) mls outs ∧ out = outs.flatten :=
+  mls_concat_iff' box isOpen mls out
+
+/-- … and for a box of positive size it always returns (never stuck). -/
+theorem mls_concat (box : Bound α) (hb : BoxOK box) (isOpen : Bool) (mls : List (List (Pt α))) :
+    ∃ outs, List.Forall₂ (fun ls o => line box isOpen ls = some o) mls outs ∧
+      multiLineString box isOpen mls = some outs.flatten := mls_concat' box hb isOpen mls
+
+/-- The two entry points agree on a single line string (both modes). -/
+theorem mls_singleton (box : Bound α) (isOpen : Bool) (ls : List (Pt α)) :
+    multiLineString box isOpen [ls] = line box isOpen ls := mls_singleton' box isOpen ls
+
+/-- Every output vertex of `multiLineString` is inside the closed box (both modes). -/
+theorem mls_vertices_in_box (box : Bound α) (hb : BoxOK box) (isOpen : Bool) (mls : List (List (Pt α)))
+    (out : List (List (Pt α))) (h : multiLineString box isOpen mls = some out) :
+    ∀ piece ∈ out, ∀ v ∈ piece, InBox box v := mls_vertices_in_box' box hb isOpen mls out h
+
+/-- SOUND AND COMPLETE, closed mode, for `multiLineString`: the pieces together are exactly the points
+    of the members lying in the closed box. -/
+theorem mls_exact (box : Bound α) (hb : BoxOK box) (mls : List (List (Pt α))) (out : List (List (Pt α)))
+    (h : multiLineString box false mls = some out) :
+    ∀ q, OnPieces out q ↔ ((∃ ls ∈ mls, OnPath ls q) ∧ InBox box q) := mls_exact' box hb mls out h
+
+/-- Open mode, soundness, for `multiLineString`. -/
+theorem mls_open_interior (box : Bound α) (hb : BoxOK box) (mls : List (List (Pt α))) (out : List (List (Pt α)))
+    (h : multiLineString box true mls = some out) :
+    ∀ piece ∈ out, ∀ s ∈ segsOf piece, ∀ t, 0 < t → t < 1 → s.1 ≠ s.2 → InOpenBox box (lerp s.1 s.2 t) :=
+  mls_open_interior' box hb mls out h
+
+/-- Open mode, completeness, for `multiLineString`. -/
+theorem mls_open_complete (box : Bound α) (hb : BoxOK box) (mls : List (List (Pt α))) (out : List (List (Pt α)))
+    (h : multiLineString box true mls = some out) :
+    ∀ ls ∈ mls, ∀ q, OnPath ls q → InOpenBox box q → OnPieces out q := mls_open_complete' box hb mls out h
+
+/-- Non-vacuity of the open-mode split on `multiLineString`: a member that never leaves the closed box
+    but touches its boundary is split at the touch point (it is not "returned as is"). -/
+theorem mls_open_split_witness :
+    multiLineString (⟨⟨0, 0⟩, ⟨2, 2⟩⟩ : Bound ℚ) true [[⟨1, 1⟩, ⟨2, 1⟩, ⟨1, 3/2⟩]] =
+      some [[⟨1, 1⟩, ⟨2, 1⟩], [⟨2, 1⟩, ⟨1, 3/2⟩]] := mls_open_split_witness'
 
 /-- Non-vacuity: a concrete box and a concrete two-piece clip. -/
 example : BoxOK (⟨⟨1, 1⟩, ⟨3, 3⟩⟩ : Bound ℚ) := by constructor <;> norm_num
